@@ -199,6 +199,10 @@ def trace_inputs(trace, entry):
     """compact view of a counterexample: last value of every named variable
     assigned in the harness or the environment (internal DFCC symbols dropped)"""
     vals, order = {}, []
+    harness_names = set()
+    for s in trace or []:
+        if s.get("stepType") == "assignment" and s.get("sourceLocation", {}).get("function", "") == entry:
+            harness_names.add(s.get("lhs", ""))
     for s in trace or []:
         if s.get("stepType") != "assignment" or s.get("hidden"):
             continue
@@ -210,7 +214,10 @@ def trace_inputs(trace, entry):
         if d is None:
             continue
         fn = s.get("sourceLocation", {}).get("function", "")
+        # harness variables and globals keep their plain name; locals/parameters of other functions are qualified
         key = lhs
+        if fn and fn != entry and not lhs.startswith("g_") and not lhs.startswith("ns_") and lhs in harness_names:
+            key = fn + "::" + lhs
         if key not in vals:
             order.append(key)
         vals[key] = {"value": d, "function": fn, "line": s.get("sourceLocation", {}).get("line")}
@@ -489,7 +496,7 @@ def check_property(prop, tier, only=None, jobs=None, quiet=False):
             if not quiet:
                 print("  unit %-40s %-9s obl=%d/%d canaries=%d/%d %.1fs %s" % (
                     r["id"], r["status"], r["discharged"], r["obligations"], r["canaries_fired"],
-                    r["canaries_required"], r["wall_s"], (r["reason"] or "")[:300]), flush=True)
+                    r["canaries_required"], r["wall_s"], (r["reason"] or "")[:160].replace("\n", " | ")), flush=True)
     results.sort(key=lambda r: r["id"])
     exit_code = 0
     violations, undecided, kf_lines = [], [], []
@@ -523,7 +530,7 @@ def check_property(prop, tier, only=None, jobs=None, quiet=False):
             print("      also: %s: %s" % (g["property"], g["description"]))
         print("VIOLATION property=%s replay=%s%s" % (prop, path, "" if ok else " no-failing-input-found"))
     for r in undecided:
-        print("UNDECIDED property=%s unit=%s reason=%s" % (prop, r["id"], r.get("reason")))
+        print("UNDECIDED property=%s unit=%s reason=%s" % (prop, r["id"], (r.get("reason") or "")[:400].replace("\n", " | ")))
     if violations:
         exit_code = 1
     elif undecided:
